@@ -168,7 +168,8 @@ CHECKS["C14"] = {
     "jobs": [J("close", "c14", "TestClose", 2500, 200000, 8), J("slowcloser", "c14", "TestSlowCloser", None, None),
              J("serving", "c14", "TestCloseWhileRunnerServes", 300, 10000, 2),
              J("localtypes", "c14", "TestLocalTypesSharingAName", None, None),
-             J("flakycloser", "c14", "TestFlakyCloser", 300, 8000, 2)],
+             J("flakycloser", "c14", "TestFlakyCloser", 300, 8000, 2),
+             J("globalsettings", "c14", "TestGlobalSettingsCloser", 300, 5000, 1, env={"VERIF_GLOBAL_SETTINGS": "1"})],
     "assumptions": [
         "the harness owns the finishing order of the Close calls through per-closer gates; gates are opened independently of whether the closer has been entered, so a sequential implementation is not rejected",
         "the only wall-clock bound (10 s) applies after every gate is open, i.e. when all work is provably finishable",
